@@ -17,7 +17,8 @@ RULE = ("cases = (a) pairs of calls optimized.pairing(Q, P) / reference.pairing(
         "check with identity factors; (c) final_exponentiate(x) versus x^((p^12-1)/r) and exp_by_p(x) versus x^p computed with the model's own "
         "square-and-multiply for FQ12 elements 0, 1, -1, w, sparse, subfield, random and Miller-loop outputs. A monitor wrapped around each of "
         "the four pairing functions counts the observed calls. distinct = distinct (curve, inputs); non-trivial = scalars not in {1, 2, 27, 37, "
-        "999} or rescaled operands / non-generator points / FQ12 elements other than 1")
+        "999} or rescaled operands / non-generator points / FQ12 elements other than 1"
+        " A concurrent phase repeats optimized pairings (both flags) and final exponentiations of both curves in 3 threads and requires the single-threaded values.")
 ASSUMPTIONS = ["reference and optimized pairing are compared as field elements (coefficient tuples), which is what 'exactly the same field element' means"]
 CURVES = ["bn128", "bls12_381"]
 
